@@ -53,7 +53,7 @@ def probe_known(ctx):
             except Exception:
                 worst = float("inf")
         if not np.isfinite(worst) or worst > 1e-6 * 24:
-            ctx.violation("%s: unstable with gamma=0" % name, dict(entry=name, gamma=0.0, probe=True))
+            ctx.violation("%s: unstable with gamma=0" % name, dict(entry=name, gamma=0.0, depleting=True, probe=True))
 
 
 def rhs_correspondence(ctx, drv):
@@ -116,16 +116,34 @@ def rhs_correspondence(ctx, drv):
             ctx.disagreement("rhs:" + rep["model"], dict(rep, impl=[float(x) for x in dy], lean=[float(x) for x in want]))
 
 
+def probe_known2(ctx):
+    """the recorded failing input of the SIR effective-degree instability (corpus/C06)"""
+    import EoN, json, os
+    c = json.load(open(os.path.join(common.VERIF, "corpus", "C06", "sir_effective_degree_depleting.json")))
+    H = nx.Graph(); H.add_nodes_from(range(c["n"])); H.add_edges_from(c["edges"])
+    try:
+        with np.errstate(all="ignore"):
+            t, S, I, R = EoN.SIR_effective_degree_from_graph(H, c["tau"], c["gamma"], rho=c["rho"], tmax=c["tmax"], tcount=c["tcount"])
+        bad = (not np.all(np.isfinite(S + I + R))) or np.max(np.diff(S)) > 1e-6 * c["n"] or np.min(np.diff(R)) < -1e-6 * c["n"]
+    except Exception:
+        bad = True
+    if bad:
+        ctx.violation("SIR_effective_degree_from_graph: unstable when susceptibles are exhausted",
+                      dict(entry="SIR_effective_degree_from_graph", depleting=True, probe=True))
+
+
 def run(ctx):
     drv = common.LeanDriver()
     probe_known(ctx)
+    probe_known2(ctx)
     rhs_correspondence(ctx, drv)
     reqs, metas = [], []
-    per = ctx.scale(12, 60)
+    per = ctx.scale(28, 84)
     for name, e in odes.E.items():
         for k in range(per):
+            # every (initial-condition style, graph kind) combination is visited
             style = e["ic"][k % len(e["ic"])]
-            G, gkind = odes.graph(ctx.rng, small=e["small"])
+            G, gkind = odes.graph(ctx.rng, small=e["small"], kind=odes.KINDS[(k // len(e["ic"])) % len(odes.KINDS)])
             idx = gen.index_of(G)
             tau, gamma = RATES[ctx.rng.randrange(len(RATES))]
             p = ctx.rng.choice([0.25, 0.5, 0.0, 1.0])
@@ -140,7 +158,8 @@ def run(ctx):
             rep = dict(entry=name, graph=dict(kind=gkind, n=G.order(), edges=[[idx[u], idx[v]] for u, v in G.edges()]),
                        ic={k_: ([idx[u] for u in v] if isinstance(v, list) else v) for k_, v in desc.items()}, tau=tau, gamma=gamma, p=p,
                        tmin=tmin, tmax=tmax, tcount=tcount, full=full,
-                       regular=len(set(dict(G.degree()).values())) == 1)
+                       regular=len(set(dict(G.degree()).values())) == 1,
+                       depleting=(gamma == 0 or tau / gamma >= 10))
             ctx.count("%s:%s" % (name.replace("_from_graph", ""), style))
             try:
                 res = odes.call(name, G, kw, tau, gamma, tmin, tmax, tcount, full, p=p)
